@@ -23,8 +23,8 @@ RULE = ('one real Dispatcher + SecNode with 1..3 modules (exported / hidden para
         'random / random preemption points; non-trivial = at least one update message was delivered to a connection; '
         'distinct = distinct (node, scripts, executed step sequence)')
 ASSUMPTIONS = [
-    'granularity: threads are interleaved at synchronisation points (acquire of Dispatcher._lock / Module.updateLock, '
-    'entry of make_update, send_reply and receive of the connection); preemption between two bytecodes of a region '
+    'granularity: threads are interleaved at synchronisation points (acquire of Dispatcher._lock / Module.updateLock '
+    '(driver threads and handle_activate), entry of make_update, send_reply and receive of the connection); preemption between two bytecodes of a region '
     'without such a point (line level) is not explored',
     'every announced value differs from the cached one (globally unique values), so the omit_unchanged_within filter '
     'of announceUpdate never drops an update; error updates (readerror) are not generated',
@@ -91,7 +91,26 @@ def _policy(spec):
         return dsched.Explicit(spec['decisions'])
     if k == 'preempt':
         return dsched.Preempt(spec['points'])
+    if k == 'follow':
+        return Follow(spec['decisions'])
     raise ValueError(k)
+
+
+class Follow:
+    """replay of a decision list recorded on an EARLIER version of the code: decisions that name a thread which is
+    not enabled any more are skipped (instead of ending the run as 'diverged'); afterwards non-preemptive"""
+
+    def __init__(self, decisions):
+        self.decisions = list(decisions)
+        self.i = 0
+
+    def __call__(self, n, enabled, current):
+        while self.i < len(self.decisions) and self.decisions[self.i] not in enabled:
+            self.i += 1
+        if self.i < len(self.decisions):
+            self.i += 1
+            return self.decisions[self.i - 1]
+        return current if current in enabled else enabled[0]
 
 
 def run_case(case, policy=None):
@@ -577,10 +596,6 @@ def _last_build_before(obs, thread, p, at):
 
 
 FINDING_CLASSIFIERS = {
-    # handle_activate builds the snapshot message of p, a driver thread stores and broadcasts a newer value to the
-    # (already registered) connection, then the activation sends its older message last
-    'stale_snapshot': lambda case, obs, f: f['class'] == 'stale-at-quiescence' and f['sender'] == f"c{f['conn']}"
-    and f['overtaken'],
     # broadcast_event selected its listeners before the connection was unregistered and sends afterwards
     'late_update': lambda case, obs, f: f['class'] == 'update-after-deactivate' and f['sender'].startswith('u')
     and _last_build_before(obs, f['sender'], f['p'], f['at']) is not None
